@@ -299,7 +299,7 @@ Theorem C06_file_op_meaning : forall o,
   | HWrite _ _ | HWriteAt _ _ _ | HWriteString _ _ | HSeek _ _ _ | HTruncate _ _ | HClose _ | HStat _ | HSync _ => True
   | _ => False
   end.
-Proof. intros o. destruct o; cbn; try tauto; try (split; [discriminate | tauto]); apply Z.leb_le. Qed.
+Proof. exact file_op_meaning. Qed.
 Print Assumptions C06_file_op_meaning.
 
 Theorem C06_spec_open_meaning : forall flag data,
@@ -307,7 +307,7 @@ Theorem C06_spec_open_meaning : forall flag data,
   let ro := Z.land flag memfs_access_mask =? 0 in
   let trunc := flag_has flag o_trunc && flag_has flag (Z.lor o_rdwr o_wronly) && negb ro in
   mkBS (if trunc then [] else data) [mkBH (Z.to_nat (if flag_has flag o_append then zlen data else 0)) false ro].
-Proof. reflexivity. Qed.
+Proof. exact spec_open_meaning. Qed.
 Print Assumptions C06_spec_open_meaning.
 
 (* Through cow(mem,mem), for EVERY well-formed base and overlay, EVERY rooted name of a regular file
@@ -351,7 +351,7 @@ Print Assumptions C06_write_read_back.
    error class, end-of-file flag), one per op *)
 Theorem C06_proj_all_meaning : forall ops outs,
   proj_all ops outs = map (fun '(o, r) => proj o r) (combine ops outs).
-Proof. reflexivity. Qed.
+Proof. exact proj_all_meaning. Qed.
 Print Assumptions C06_proj_all_meaning.
 
 (* the sentence about a partial modification, for one WriteAt at ANY offset with ANY bytes: the file
@@ -393,12 +393,41 @@ Theorem C06_read_overlay_file : forall sb sl tbl name g d mt ops,
 Proof. exact cow_read_overlay_file. Qed.
 Print Assumptions C06_read_overlay_file.
 
+(* writing to a file the OVERLAY already holds (whatever the base holds under the name): the same statement
+   with the overlay's bytes as the initial content.  CopyOnWriteFs.OpenFile looks at filepath.Dir of the name
+   AS GIVEN; the statement asks that this is the parent of the normalised name, which is so whenever the last
+   element of the name is an ordinary one (C06_dir_of_name_is_parent; for "/d/f/" it is "/d/f" itself and the
+   call answers ENOTDIR — a failed call, covered by section 6) *)
+Theorem C06_dir_of_name_is_parent : forall name,
+  wf_name name = true ->
+  let b := snd (path_split name) in
+  b <> [] -> b <> s_dot -> b <> s_dotdot -> ~ In SLASH b ->
+  normalize_path (path_dir name) = par (normalize_path name).
+Proof. exact dir_key_ordinary_last. Qed.
+Print Assumptions C06_dir_of_name_is_parent.
+
+Theorem C06_write_overlay_file : forall sb sl tbl name flag perm g d mt ops,
+  WF sb -> WF sl -> wf_name name = true ->
+  let nn := normalize_path name in
+  LF nn g sl d mt -> normalize_path (path_dir name) = par nn ->
+  Z.land flag cow_mask <> 0 -> flag_has flag o_excl && flag_has flag o_create = false ->
+  let i := length tbl in
+  Forall (fun o => op_handle_of o = Some i /\ file_op o = true) ops ->
+  let spec := bf_run (spec_open flag d) (map (fun o => op_set_handle o 0) ops) in
+  exists sb' sl' lh outs g',
+    run_steps (cow_step m_step m_step) (sb, sl, tbl) (OpenFile name flag perm :: ops) = ((sb', sl', tbl ++ [HL lh]), RHandle i :: outs) /\
+    length outs = length ops /\ proj_all ops outs = snd spec /\
+    fs_view sb' = fs_view sb /\
+    LF nn g' sl' (bdata (fst spec)) None /\ WF sl' /\ (forall k, k <> nn -> cview sl' k = cview sl k).
+Proof. exact cow_write_overlay_file. Qed.
+Print Assumptions C06_write_overlay_file.
+
 (* ---- 6. a failed call leaves the view unchanged ---- *)
 (* the union view (Model/CowView.v): the overlay's entry if the overlay has one, otherwise the base's;
    an entry is the kind and, for a regular file, the bytes (mode and mtime are not part of it) *)
 Theorem C06_uview_meaning : forall sb sl k,
   uview sb sl k = match cview sl k with Some e => Some e | None => cview sb k end.
-Proof. reflexivity. Qed.
+Proof. exact uview_meaning. Qed.
 Print Assumptions C06_uview_meaning.
 
 (* the hypotheses of the theorem below, spelled out.  op_names_abs: every path argument begins with the
@@ -416,7 +445,7 @@ Theorem C06_op_names_abs_meaning : forall o,
                    | Rename p q => is_rooted p && is_rooted q
                    | _ => true
                    end.
-Proof. reflexivity. Qed.
+Proof. exact op_names_abs_meaning. Qed.
 Print Assumptions C06_op_names_abs_meaning.
 
 Theorem C06_failed_call_hyps_meaning : forall sb sl tbl o,
@@ -430,7 +459,7 @@ Theorem C06_failed_call_hyps_meaning : forall sb sl tbl o,
        forall f nd, lookup sb (normalize_path p) = Some f -> get_node sb f = Some nd -> ndir nd = true -> ndata nd = []
    | _ => True
    end).
-Proof. intros sb sl tbl o. split; [reflexivity | destruct o; reflexivity]. Qed.
+Proof. exact failed_call_hyps_meaning. Qed.
 Print Assumptions C06_failed_call_hyps_meaning.
 
 (* Full statement: every failed call leaves the union view unchanged.  Through cow(mem,mem), for EVERY
@@ -454,6 +483,22 @@ Theorem C06_failed_call_view_unchanged : forall sb sl tbl o,
   forall k, uview (fst (fst st')) (snd (fst st')) k = uview sb sl k.
 Proof. exact cow_failed_call_view. Qed.
 Print Assumptions C06_failed_call_view_unchanged.
+
+(* towards union_handles_inert in every reachable state: the handle CopyOnWriteFs.Open obtains from the
+   overlay is read-only, and NO method of MemMapFs or of its handles — the thirteen Fs methods, all handle
+   methods, in any state — ever makes a read-only or closed handle writable again or moves it.  (Not proved:
+   the bookkeeping that the table of a CopyOnWriteFs only ever gains union entries through Open; the
+   hypothesis is shown satisfied on a concrete reached state in C06_ex_union_handle_inert.) *)
+Theorem C06_open_handle_is_inert : forall s p s' lh, m_step s (Open p) = (s', RHandle lh) ->
+  exists h, nth_error (mhandles s') lh = Some h /\ hro h || hclosed h = true.
+Proof. exact layer_open_handle_inert. Qed.
+Print Assumptions C06_open_handle_is_inert.
+
+Theorem C06_layer_handles_stay_inert : forall s o j h,
+  nth_error (mhandles s) j = Some h -> hro h || hclosed h = true ->
+  exists h', nth_error (mhandles (fst (m_step s o))) j = Some h' /\ hro h' || hclosed h' = true.
+Proof. exact layer_step_keeps_inert. Qed.
+Print Assumptions C06_layer_handles_stay_inert.
 
 (* the excluded corner is a real one.  MemMapFs accepts OpenFile(dir, O_RDWR) and Write through that handle;
    the directory node then carries bytes while Stat keeps reporting the fixed size 42.  With exactly 42 bytes
